@@ -18,7 +18,11 @@ enum St {
 struct Inner {
     status: Vec<St>,
     running: BTreeSet<usize>,
-    turn: Option<usize>,
+    /// grants handed out by the scheduler and not yet taken up (a grant is never revoked: giving another agent the
+    /// go-ahead must not cancel one that its thread has not yet woken up to)
+    allowed: BTreeSet<usize>,
+    /// OS thread ids of the agents (0 until known), to tell a blocked agent from a slow one
+    tids: Vec<i32>,
     trace: Vec<(usize, &'static str)>,
 }
 
@@ -76,13 +80,11 @@ impl Sched {
         if site != "<start>" {
             g.trace.push((agent, site));
         }
-        if g.turn == Some(agent) {
-            g.turn = None;
-        }
         self.cv.notify_all();
-        while g.turn != Some(agent) {
+        while !g.allowed.contains(&agent) {
             g = self.cv.wait(g).unwrap_or_else(|e| e.into_inner());
         }
+        g.allowed.remove(&agent);
         g.status[agent] = St::Running;
         g.running.insert(agent);
     }
@@ -91,9 +93,6 @@ impl Sched {
         g.status[agent] = St::Finished;
         g.running.remove(&agent);
         g.trace.push((agent, "<exit>"));
-        if g.turn == Some(agent) {
-            g.turn = None;
-        }
         self.cv.notify_all();
     }
 }
@@ -120,7 +119,7 @@ pub type Program<T> = Arc<dyn Fn() -> T + Send + Sync>;
 pub fn run_once<T: Send + 'static>(programs: &[Program<T>], prefix: &[usize]) -> Execution<T> {
     let n = programs.len();
     let sched = Arc::new(Sched {
-        m: Mutex::new(Inner { status: vec![St::Running; n], running: (0..n).collect(), turn: None, trace: Vec::new() }),
+        m: Mutex::new(Inner { status: vec![St::Running; n], running: (0..n).collect(), allowed: BTreeSet::new(), tids: vec![0; n], trace: Vec::new() }),
         cv: Condvar::new(),
     });
     *CURRENT.lock().unwrap_or_else(|e| e.into_inner()) = Some(sched.clone());
@@ -134,6 +133,7 @@ pub fn run_once<T: Send + 'static>(programs: &[Program<T>], prefix: &[usize]) ->
         handles.push(std::thread::spawn(move || {
             AGENT.with(|a| a.set(Some(id)));
             COUNTS.with(|c| c.borrow_mut().clear());
+            s.m.lock().unwrap_or_else(|e| e.into_inner()).tids[id] = unsafe { libc::syscall(libc::SYS_gettid) } as i32;
             s.park(id, "<start>");
             let r = std::panic::catch_unwind(std::panic::AssertUnwindSafe(|| p()));
             if let Ok(v) = r {
@@ -148,44 +148,71 @@ pub fn run_once<T: Send + 'static>(programs: &[Program<T>], prefix: &[usize]) ->
     let mut blocked_events = 0usize;
     let mut hang = false;
     let mut divergence = None;
+    // time of the last visible progress (a point reached, an agent finished, a grant handed out)
+    let mut last_progress = Instant::now();
     loop {
         let mut g = sched.m.lock().unwrap_or_else(|e| e.into_inner());
-        let start = Instant::now();
         let mut timed_out = false;
+        let mut asleep = 0u32;
         while !g.running.is_empty() {
-            let (ng, to) = sched.cv.wait_timeout(g, Duration::from_millis(500)).unwrap_or_else(|e| e.into_inner());
+            let (ng, to) = sched.cv.wait_timeout(g, Duration::from_millis(100)).unwrap_or_else(|e| e.into_inner());
             g = ng;
-            if to.timed_out() && start.elapsed() > Duration::from_secs(2) && !g.running.is_empty() {
+            if !to.timed_out() {
+                last_progress = Instant::now();
+                asleep = 0;
+                continue;
+            }
+            if g.running.is_empty() {
+                break;
+            }
+            // An agent that is between two points is either computing (its OS thread is runnable: leave it alone,
+            // however long it takes on a loaded machine) or blocked on a lock held by a parked agent (its thread
+            // sleeps). Ten consecutive samples asleep = blocked.
+            if g.running.iter().all(|a| thread_asleep(g.tids[*a])) {
+                asleep += 1;
+            } else {
+                asleep = 0;
+            }
+            if asleep >= 10 {
                 timed_out = true;
                 break;
             }
+            if last_progress.elapsed() > hang_limit() {
+                hang = true;
+                break;
+            }
+        }
+        if hang {
+            break;
         }
         if g.status.iter().all(|s| *s == St::Finished) {
             break;
         }
         let parked: Vec<usize> = (0..n).filter(|i| matches!(g.status[*i], St::Parked(_))).collect();
         if timed_out {
-            // an agent is stuck between two points (a lock held by a parked agent, or a genuine hang)
-            let candidates: Vec<usize> = parked.iter().cloned().filter(|p| g.turn != Some(*p)).collect();
+            // every running agent sleeps between two points: a lock held by a parked agent, or a deadlock
+            let candidates: Vec<usize> = parked.iter().cloned().filter(|p| !g.allowed.contains(p)).collect();
             if let Some(&b) = candidates.first() {
                 blocked_events += 1;
-                if blocked_events > 50 || start.elapsed() > Duration::from_secs(20) {
+                if blocked_events > 50 {
                     hang = true;
                     break;
                 }
-                g.turn = Some(b);
+                g.allowed.insert(b);
                 g.status[b] = St::Running;
                 g.running.insert(b);
+                last_progress = Instant::now();
                 sched.cv.notify_all();
                 continue;
             } else {
-                if start.elapsed() > Duration::from_secs(10) {
+                if last_progress.elapsed() > Duration::from_secs(10) {
                     hang = true;
                     break;
                 }
                 continue;
             }
         }
+        last_progress = Instant::now();
         if parked.is_empty() {
             continue;
         }
@@ -215,7 +242,7 @@ pub fn run_once<T: Send + 'static>(programs: &[Program<T>], prefix: &[usize]) ->
             points.push(Point { enabled: enabled.clone(), running_enabled });
             let a = enabled[c];
             last = Some(a);
-            g.turn = Some(a);
+            g.allowed.insert(a);
             g.status[a] = St::Running;
             g.running.insert(a);
             sched.cv.notify_all();
@@ -225,7 +252,7 @@ pub fn run_once<T: Send + 'static>(programs: &[Program<T>], prefix: &[usize]) ->
         points.push(Point { enabled: enabled.clone(), running_enabled });
         let a = enabled[choice];
         last = Some(a);
-        g.turn = Some(a);
+        g.allowed.insert(a);
         g.status[a] = St::Running;
         g.running.insert(a);
         sched.cv.notify_all();
@@ -240,6 +267,22 @@ pub fn run_once<T: Send + 'static>(programs: &[Program<T>], prefix: &[usize]) ->
     let trace = sched.m.lock().unwrap_or_else(|e| e.into_inner()).trace.clone();
     let outputs = std::mem::take(&mut *outputs.lock().unwrap());
     Execution { choices, points, outputs, trace, blocked_events, hang, divergence }
+}
+
+/// Is the OS thread `tid` of this process sleeping (blocked), as opposed to running or waiting for a CPU?
+fn thread_asleep(tid: i32) -> bool {
+    if tid == 0 {
+        return false;
+    }
+    match std::fs::read_to_string(format!("/proc/self/task/{}/stat", tid)) {
+        // "<pid> (<comm>) <state> ..."
+        Ok(s) => matches!(s.rsplit(')').next().and_then(|r| r.trim_start().chars().next()), Some('S') | Some('D')),
+        Err(_) => false,
+    }
+}
+/// an agent that computes for longer than this between two points is reported as hanging
+fn hang_limit() -> Duration {
+    Duration::from_secs(std::env::var("JBV_HANG_LIMIT_S").ok().and_then(|v| v.parse().ok()).unwrap_or(120))
 }
 
 pub fn preemptions(x_points: &[Point], choices: &[usize], upto: usize) -> usize {
@@ -278,7 +321,7 @@ pub fn explore<T: Send + 'static>(
         stats.blocked_events += x.blocked_events;
         stats.distinct_traces.insert(crate::common::fnv(format!("{:?}", x.trace).as_bytes()));
         if x.hang {
-            return Some((x.choices.clone(), "agents hang (no progress for 10 s)".into(), x.trace.clone()));
+            return Some((x.choices.clone(), "agents hang (deadlock, or no scheduling point reached within the hang limit)".into(), x.trace.clone()));
         }
         if let Some(d) = &x.divergence {
             return Some((x.choices.clone(), format!("MACHINERY {}", d), x.trace.clone()));
